@@ -52,7 +52,8 @@ def gen_cases(tier, seed):
         cases.append(dict(kind="a2c", N=int(rng.integers(1, 5)),
                           T=int(rng.integers(1, 9)),
                           seed=int(rng.integers(1 << 30)), cost=3))
-        cases.append(dict(kind="dataset", seed=int(rng.integers(1 << 30)), cost=1))
+        cases.append(dict(kind="dataset", inner1=bool(i % 2 == 0),
+                          seed=int(rng.integers(1 << 30)), cost=1))
     for i in range(6 * k):
         cases.append(dict(kind="ppo", N=int(rng.integers(1, 5)),
                           T=int(rng.integers(2, 9)), logger=bool(i % 2),
@@ -365,6 +366,12 @@ def run_dataset(case):
     rng = np.random.default_rng(case["seed"])
     gamma = float(rng.choice(GAMMAS + [0.9]))
     lens = [int(x) for x in rng.integers(1, 7, size=int(rng.integers(1, 5)))]
+    if case.get("inner1"):
+        # one-step episodes followed by another episode (round 9: episode
+        # boundaries recognised by a falling step index miss 0 -> 0)
+        pos = int(rng.integers(0, len(lens)))
+        lens[pos:pos] = [1] * int(rng.integers(1, 3))
+        res.see("datasets_with_inner_one_step_episodes")
 
     def build(rews):
         ds = EpisodeDataset()
